@@ -379,6 +379,17 @@ def run(ctx):
     ad = OmegaAdapter(ctx, terms, 40 if thorough else 12)
     w = Walker(ctx, g, ad, 'replay.OmegaModels')
     ne = w.cover_edges(stutter=True)
+    # the total weight of the defining sum is N^2 (omega -> N as k -> 0) for EVERY chain length: an inductive invariant of the
+    # unrolled sum, discharged by Apalache for symbolic N (spec/PairCountInd.tla); TLC checks the same statement for N <= MaxN
+    from harness.core import run_apalache
+    verdicts = [run_apalache('PairCountInd', 'IndInv', ctx.tmp, init='IndInit', length=1),
+                run_apalache('PairCountInd', 'ExitOK', ctx.tmp, init='IndInit', length=0),
+                run_apalache('PairCountInd', 'IndInv', ctx.tmp, init='Init', length=0)]
+    refuted = run_apalache('PairCountInd', 'BadInv', ctx.tmp, init='Init', length=2)
+    if verdicts != ['NoError'] * 3 or refuted != 'Error':
+        raise MachineryError('PairCountInd: Apalache verdicts %r (wrong closed form refuted: %r)' % (verdicts, refuted))
+    ctx.stage('spec.PairCountInd', tool='Apalache 0.58', statement='for all N >= 2: N + SUM_{n=1}^{N-1} 2 (N - n) = N^2 (inductive invariant acc = (n-1)(2N-n))',
+              verdicts=verdicts, wrong_variant_refuted=True)
     unit_invariance(ctx, thorough)
     nord = order_independence(ctx, res.records['EDGE'], 12)
     ctx.stage('order_independence', objects=nord)
